@@ -80,7 +80,9 @@ def mixpool():
     """values of different kinds (containers among them) that can sit next to each other in a set / as map keys"""
     import ckl.values as V
     return [vset([]), vset([vint(1)]), vmap([]), vset([V.TRUE]), vlist([vint(1)]), vmap([(vint(1), vint(2))]),
-            vset([vstr("a")]), vint(5), vstr("<<"), vset([vint(10)]), vset([vint(9)]), vlist([]), V.NULL]
+            vset([vstr("a")]), vint(5), vstr("<<"), vset([vint(10)]), vset([vint(9)]), vlist([]), V.NULL,
+            # containers whose own construction order differs from their sorted order
+            vmap([(vint(2), vint(20)), (vint(1), vint(10))]), vset([vint(3), vint(2)])]
 
 
 def wrap(shape, leaf):
